@@ -20,4 +20,16 @@ MODULES = {
         dict(py='CryptoEngine.keygen_manual', coq='keygen_manual', args=[('key_x', INT), ('key_y', INT)], ret=SEQ),
         dict(py='CryptoEngine.keygen_twl_manual', coq='keygen_twl_manual', args=[('key_x', INT), ('key_y', INT)], ret=SEQ),
     ]),
+    'fileio': dict(file='pyctr/fileio.py', kernels=[
+        dict(py='SubsectionIO.seek', coq='SubsectionIO_seek', args=[('seek', INT), ('whence', INT)], ret=INT,
+             raises=True, selfattrs={'_seek': INT, '_size': INT}, writes=['_seek']),
+        # pure prefix of read(): None = early "return b''", Some n = size handed to the base file
+        dict(py='SubsectionIO.read', coq='SubsectionIO_read_prefix', args=[('size', INT)],
+             selfattrs={'_seek': INT, '_size': INT, '_offset': INT, '_end': INT},
+             cut_at_with=True, early_return='None', fallthrough='Some size', fallthrough_vars=['size']),
+        # pure prefix of write(): None = early "return 0", Some d = bytes handed to the base file
+        dict(py='SubsectionIO.write', coq='SubsectionIO_write_prefix', args=[('data', SEQ)],
+             selfattrs={'_seek': INT, '_size': INT},
+             cut_at_with=True, early_return='None', fallthrough='Some data', fallthrough_vars=['data']),
+    ]),
 }
